@@ -74,10 +74,10 @@ type Driver struct {
 	oldRoots  []*mast.Root
 	oldModels []*kinds.Model
 	WReopen   int
-	lowTarget  int
-	hiTarget   int
-	growing    bool
-	fullEvery  int
+	lowTarget int
+	hiTarget  int
+	growing   bool
+	fullEvery int
 	// weights may be tuned by the embedding monitor
 	WPersist, WReload, WClone int
 }
